@@ -100,12 +100,25 @@ def _item(t):
     if kind == "m":
         return used.obj(("m", t), lambda: _mkM(pseq(parts[0]), pcells(parts[1])), _warm_mesh)
     if kind == "b":
-        return used.obj(("b", t), lambda: BivincularPatt(_mkP(pseq(parts[0]), 3), pseq(parts[1]), pseq(parts[2])), _warm_mesh)
+        return used.obj(("b", t), lambda: BivincularPatt(_mkP(pseq(parts[0]), 3), _arg(pseq(parts[1]), (t, 1)), _arg(pseq(parts[2]), (t, 2))), _warm_mesh)
     if kind == "v":
-        return used.obj(("v", t), lambda: VincularPatt(_mkP(pseq(parts[0]), 3), pseq(parts[1])), _warm_mesh)
+        return used.obj(("v", t), lambda: VincularPatt(_mkP(pseq(parts[0]), 3), _arg(pseq(parts[1]), (t, 1))), _warm_mesh)
     if kind == "k":
-        return used.obj(("k", t), lambda: CovincularPatt(_mkP(pseq(parts[0]), 3), pseq(parts[1])), _warm_mesh)
+        return used.obj(("k", t), lambda: CovincularPatt(_mkP(pseq(parts[0]), 3), _arg(pseq(parts[1]), (t, 1))), _warm_mesh)
     raise ValueError(t)
+
+
+def _arg(seq, key):
+    """an iterable argument in one of the forms a caller may hand over: tuple, list, set-free one-shot iterator,
+    generator (the signatures say Iterable[int])"""
+    k = past._pick(("arg", tuple(seq), key), 4)
+    if k == 0:
+        return tuple(seq)
+    if k == 1:
+        return list(seq)
+    if k == 2:
+        return iter(list(seq))
+    return (x for x in list(seq))
 
 
 def _items(s):
